@@ -622,7 +622,10 @@ impl Ctx {
             }
         }
         let mut replay_paths = Vec::new();
-        let dir = format!("{}/replays/{}", VERIF_DIR, self.property);
+        // VERIF_NO_EVIDENCE=1 (mutation trials): keep /verif/evidence and /verif/replays untouched
+        let scratch = std::env::var("VERIF_NO_EVIDENCE").is_ok();
+        let out_base = if scratch { "/tmp/verif-scratch".to_string() } else { VERIF_DIR.to_string() };
+        let dir = format!("{}/replays/{}", out_base, self.property);
         let mut seen_sig = HashSet::new();
         for f in &self.failures {
             if !seen_sig.insert(f.signature.clone()) {
@@ -674,8 +677,8 @@ impl Ctx {
             "violations": replay_paths.len(),
             "infrastructure_errors": self.infra_errors,
         });
-        let _ = std::fs::create_dir_all(format!("{}/evidence", VERIF_DIR));
-        let path = format!("{}/evidence/{}.json", VERIF_DIR, self.property);
+        let _ = std::fs::create_dir_all(format!("{}/evidence", out_base));
+        let path = format!("{}/evidence/{}.json", out_base, self.property);
         if let Err(e) = std::fs::write(&path, serde_json::to_string_pretty(&evidence).unwrap()) {
             eprintln!("cannot write {}: {}", path, e);
             return 2;
